@@ -10,6 +10,7 @@ import (
 	"strings"
 
 	"ariga.io/atlas/sql/schema"
+	"ariga.io/atlas/sql/sqlite"
 
 	"verif/eng"
 	"verif/model"
@@ -25,6 +26,9 @@ type Case struct {
 	Rows  map[string][]Row `json:"rows"` // table -> rows (every table has the key column k)
 	Edits []string         `json:"edits"`
 	NoTx  bool             `json:"no_tx,omitempty"` // apply through Driver.ApplyChanges without a transaction (foreign keys stay enforced)
+	// ViaHCL: the desired state is a document: EvalHCL(MarshalHCL(inspect(reference))). String defaults arrive without
+	// quotes that way ("007"), the planner has to write them as strings
+	ViaHCL bool `json:"via_hcl,omitempty"`
 }
 
 type Outcome struct {
@@ -231,6 +235,16 @@ func checkCase(c Case) (Outcome, error) {
 	if err != nil {
 		return out, fmt.Errorf("inspect desired: %v", err)
 	}
+	if c.ViaHCL {
+		h, err := sqlite.MarshalHCL(desired)
+		if err != nil {
+			return out, fmt.Errorf("MarshalHCL(desired): %v", err)
+		}
+		desired = &schema.Realm{}
+		if err := sqlite.EvalHCLBytes(h, desired, nil); err != nil {
+			return out, fmt.Errorf("EvalHCLBytes of the marshalled desired state: %v\n%s", err, h)
+		}
+	}
 	cur, err := db.Inspect(ctx)
 	if err != nil {
 		return out, fmt.Errorf("inspect current: %v", err)
@@ -333,7 +347,17 @@ func checkCase(c Case) (Outcome, error) {
 				}
 				// the documented transformation: NULL under a column that became NOT NULL DEFAULT d becomes d
 				if brow[col] == "NULL" && ai.notnull && ai.dflt.Valid {
-					want, err := defaultAs(db.Raw, ai.typ, ai.dflt.String, a.strict)
+					// (the default as the desired model states it, not as the migrated table happens to carry it)
+					dflt := ai.dflt.String
+					if mt := c.B.Table(name); mt != nil {
+						if mc := mt.Col(col); mc != nil && mc.Default != "" {
+							dflt = mc.Default
+							if strings.HasPrefix(dflt, `"`) { // a double-quoted text is a string literal only outside parentheses
+								dflt = sqliteref.NormDefault(dflt)
+							}
+						}
+					}
+					want, err := defaultAs(db.Raw, ai.typ, dflt, a.strict)
 					if err == nil && want == arow[col] {
 						continue
 					}
